@@ -1,9 +1,15 @@
 mod alloc;
+mod json;
 mod kids;
 mod prng;
+mod scen;
 mod sim;
 mod subject;
 mod world;
+
+use json::{arr, esc, Obj};
+use std::collections::{BTreeMap, HashSet};
+use std::io::Write;
 
 #[global_allocator]
 static GLOBAL: alloc::Counting = alloc::Counting;
@@ -14,6 +20,132 @@ fn arg<T: std::str::FromStr>(args: &[String], name: &str, default: T) -> T {
 fn arg_s(args: &[String], name: &str) -> Option<String> {
     args.iter().position(|a| a == name).and_then(|i| args.get(i + 1)).cloned()
 }
+fn flag(args: &[String], name: &str) -> bool {
+    args.iter().any(|a| a == name)
+}
+
+fn params(args: &[String]) -> sim::Params {
+    sim::Params {
+        prop: arg(args, "--prop", 2u8),
+        seed: arg(args, "--seed", 1u64),
+        max_ops: arg(args, "--max-ops", 120usize),
+        small: flag(args, "--small"),
+        trace: flag(args, "--trace"),
+        kind: arg_s(args, "--kind").and_then(|s| subject::Kind::from_name(&s)),
+        scenario: arg_s(args, "--scen"),
+        cut: arg_s(args, "--cut").and_then(|s| s.parse().ok()),
+    }
+}
+
+fn one(p: &sim::Params, i: u64) -> sim::HistResult {
+    match &p.scenario {
+        Some(s) => scen::run_scenario(p, s, i),
+        None => sim::run_history(p, i),
+    }
+}
+
+fn stats_json(tot: &BTreeMap<&'static str, u64>) -> String {
+    let mut o = Obj::new();
+    for (k, v) in tot {
+        o = o.num(k, v);
+    }
+    o.done()
+}
+
+fn add_stats(tot: &mut BTreeMap<&'static str, u64>, w: &world::World, f: &sim::Flags) {
+    let s = &w.stats;
+    let mut add = |k: &'static str, v: u64| *tot.entry(k).or_insert(0) += v;
+    add("collection_polls", s.polls.get());
+    add("pending_returns", s.pendings.get());
+    add("items_yielded", s.items.get());
+    add("child_polls", s.child_polls.get());
+    add("pushes", s.pushes.get());
+    add("refused_pushes", s.refused.get());
+    add("wakes_of_live_children", s.wakes_live.get());
+    add("wakes_of_finished_children", s.wakes_stale.get());
+    add("redundant_wakes", s.wakes_redundant.get());
+    add("wakes_during_a_poll", s.wakes_in_poll.get());
+    add("waker_clones", s.waker_clones.get());
+    add("waker_drops", s.waker_drops.get());
+    add("task_waker_invocations", s.task_wakes.get());
+    add("task_waker_switches", s.task_switches.get());
+    add("relocations", s.relocations.get());
+    add("slot_reuses", s.slot_reuse.get());
+    add("blocks_allocated", s.blocks_alloc.get());
+    add("blocks_released", s.blocks_release.get());
+    add("waker_vtable_calls", s.vtable_calls.get());
+    add("waker_vtable_calls_after_collection_drop", s.vtable_orphan.get());
+    add("upstream_polls", s.up_polls.get());
+    add("quiet_phases", s.quiet_phases.get());
+    add("point_after_register", s.points[0].get());
+    add("point_budget_exhausted", s.points[5].get());
+    add("point_vacant_slot_skipped", s.points[6].get());
+    add("point_wake_coalesced", s.points[7].get());
+    add("point_inconsistent_queue", s.points[4].get());
+    add("rebase_crossed", f.rebase_crossed as u64);
+    add("push_front_after_poll", f.push_front_after_poll as u64);
+    add("groups_created", f.groups_created as u64);
+    add("groups_removed", f.groups_removed as u64);
+    add("stale_wakes_after_slot_reuse", f.stale_wakes_after_reuse as u64);
+    add("out_of_order_completions", f.out_of_order_completion as u64);
+    add("cancelled_with_work_in_flight", f.cancelled_nontrivial as u64);
+    add("relocations_between_polls", f.relocations_between_polls as u64);
+    add("children_processed", f.processed);
+    let mx = |tot: &mut BTreeMap<&'static str, u64>, k: &'static str, v: u64| {
+        let e = tot.entry(k).or_insert(0);
+        if v > *e {
+            *e = v;
+        }
+    };
+    mx(tot, "max_child_polls_in_one_call", s.max_child_polls_in_call.get());
+    mx(tot, "max_wake_to_poll_latency_in_polls", s.max_latency.get());
+    mx(tot, "max_backlog_pulled_not_yielded", w.max_backlog.get());
+}
+
+fn viol_json(p: &sim::Params, i: u64, r: &sim::HistResult, v: &world::Violation) -> String {
+    Obj::new()
+        .str("property", v.prop)
+        .str("rule", v.rule)
+        .str("subject", r.kind.name())
+        .num("cap", r.cap)
+        .str("detail", &v.detail)
+        .str("desc", &r.desc)
+        .num("hist", i)
+        .num("seed", p.seed)
+        .num("prop_profile", p.prop)
+        .str("scenario", p.scenario.as_deref().unwrap_or(""))
+        .bool("small", p.small)
+        .num("max_ops", p.max_ops)
+        .num("ops", r.ops)
+        .raw("tail", json::str_arr(r.tail.iter().rev().take(40).collect::<Vec<_>>().into_iter().rev()))
+        .done()
+}
+
+/// shrink by prefix: smallest cut of the random phase that still shows (prop, rule)
+fn shrink(p: &sim::Params, i: u64, prop: &str, rule: &str, ops: usize) -> Option<usize> {
+    if p.scenario.is_some() || ops == 0 {
+        return None;
+    }
+    let shows = |cut: usize| {
+        let mut q = p.clone();
+        q.cut = Some(cut);
+        let r = sim::run_history(&q, i);
+        r.violations.iter().any(|v| v.prop == prop && v.rule == rule)
+    };
+    let (mut lo, mut hi) = (0usize, ops);
+    if !shows(hi) {
+        return None;
+    }
+    while lo < hi {
+        let mid = (lo + hi) / 2;
+        if shows(mid) {
+            hi = mid;
+        } else {
+            lo = mid + 1;
+        }
+    }
+    Some(hi)
+}
 
 fn main() {
     let args: Vec<String> = std::env::args().collect();
@@ -21,23 +153,27 @@ fn main() {
     futures_buffered::verif::set_probe(Some(world::st_probe));
     let cmd = args.get(1).map(|s| s.as_str()).unwrap_or("");
     match cmd {
+        // human-readable exploration
         "sim" => {
-            let p = sim::Params {
-                prop: arg(&args, "--prop", 2u8),
-                seed: arg(&args, "--seed", 1u64),
-                max_ops: arg(&args, "--max-ops", 120usize),
-                small: args.iter().any(|a| a == "--small"),
-                trace: args.iter().any(|a| a == "--trace"),
-                kind: arg_s(&args, "--kind").and_then(|s| subject::Kind::from_name(&s)),
-                scenario: None,
-            };
+            let p = params(&args);
             let n: u64 = arg(&args, "--histories", 1000u64);
             let first: u64 = arg(&args, "--first", 0u64);
             let mut viol = 0;
             let show: usize = arg(&args, "--show", 3usize);
-            let mut by_rule: std::collections::BTreeMap<String, (u64, u64)> = Default::default();
+            let mut by_rule: BTreeMap<String, (u64, u64)> = Default::default();
+            let mut nontriv = 0u64;
             for i in first..first + n {
-                let r = sim::run_history(&p, i);
+                let r = one(&p, i);
+                if sim::nontrivial(p.prop, &r) {
+                    nontriv += 1;
+                }
+                if p.trace && n == 1 {
+                    println!("hist {i} {} ops {}", r.desc, r.ops);
+                    for l in &r.tail {
+                        println!("    {l}");
+                    }
+                    println!("flags {:?}", r.flags);
+                }
                 if !r.violations.is_empty() {
                     viol += 1;
                     let v0 = &r.violations[0];
@@ -48,19 +184,132 @@ fn main() {
                         for v in &r.violations {
                             println!("  VIOL {} {} {}", v.prop, v.rule, v.detail);
                         }
-                        if p.trace {
-                            for l in &r.tail {
-                                println!("    {l}");
-                            }
-                        }
                     }
                 }
             }
             for (k, (c, first)) in &by_rule {
                 println!("  {c:6} x {k}   (first hist {first})");
             }
-            println!("histories {n} with violations {viol}");
+            println!("histories {n} nontrivial {nontriv} with violations {viol}");
         }
-        _ => eprintln!("usage: fbv sim ..."),
+        // machine-readable worker: one JSON summary line on stdout
+        "run" => {
+            let p = params(&args);
+            let n: u64 = arg(&args, "--histories", 1000u64);
+            let first: u64 = arg(&args, "--first", 0u64);
+            let budget_ms: u64 = arg(&args, "--budget-ms", 600_000u64);
+            let hashes_out = arg_s(&args, "--hashes");
+            let t0 = std::time::Instant::now();
+            let mut hashes: HashSet<u64> = HashSet::new();
+            let mut nontriv = 0u64;
+            let mut done = 0u64;
+            let mut ops = 0u64;
+            let mut viols: Vec<String> = Vec::new();
+            let mut viol_count: BTreeMap<String, u64> = BTreeMap::new();
+            let mut inconclusive: BTreeMap<String, u64> = BTreeMap::new();
+            let mut by_kind: BTreeMap<&'static str, u64> = BTreeMap::new();
+            let mut caps: HashSet<usize> = HashSet::new();
+            let mut tot: BTreeMap<&'static str, u64> = BTreeMap::new();
+            let mut samples: Vec<String> = Vec::new();
+            let mut layouts: HashSet<u64> = HashSet::new();
+            let mut watchdog = false;
+            for i in first..first + n {
+                if t0.elapsed().as_millis() as u64 > budget_ms {
+                    watchdog = true;
+                    break;
+                }
+                let r = one(&p, i);
+                done += 1;
+                ops += r.ops as u64;
+                *by_kind.entry(r.kind.name()).or_insert(0) += 1;
+                caps.insert(r.cap);
+                add_stats(&mut tot, &r.stats, &r.flags);
+                let _ = &mut layouts;
+                if let Some(m) = &r.inconclusive {
+                    *inconclusive.entry(m.clone()).or_insert(0) += 1;
+                }
+                let nt = sim::nontrivial(p.prop, &r);
+                if nt {
+                    nontriv += 1;
+                    hashes.insert(r.hash);
+                    if samples.len() < 3 && (i - first) % 7 == 0 {
+                        samples.push(
+                            Obj::new()
+                                .str("subject", &r.desc)
+                                .num("hist", i)
+                                .num("ops", r.ops)
+                                .str("replay", &format!("fbv sim --prop {} --seed {} --first {} --histories 1 --trace{}{}", p.prop, p.seed, i, if p.small { " --small" } else { "" }, p.scenario.as_ref().map(|s| format!(" --scen {s}")).unwrap_or_default()))
+                                .raw("last_events", json::str_arr(r.tail.iter().rev().take(24).collect::<Vec<_>>().into_iter().rev()))
+                                .done(),
+                        );
+                    }
+                }
+                for v in &r.violations {
+                    *viol_count.entry(format!("{}/{}/{}", v.prop, v.rule, r.kind.name())).or_insert(0) += 1;
+                }
+                if let Some(v) = r.violations.first() {
+                    if viols.len() < 12 {
+                        let cut = shrink(&p, i, v.prop, v.rule, r.ops);
+                        let mut j = viol_json(&p, i, &r, v);
+                        if let Some(c) = cut {
+                            j.pop();
+                            j.push_str(&format!(",\"shrunk_cut\":{c}}}"));
+                        }
+                        viols.push(j);
+                    }
+                }
+            }
+            if let Some(path) = hashes_out {
+                if let Ok(mut f) = std::fs::File::create(path) {
+                    for h in &hashes {
+                        let _ = writeln!(f, "{h:016x}");
+                    }
+                }
+            }
+            let mut caps: Vec<usize> = caps.into_iter().collect();
+            caps.sort();
+            let out = Obj::new()
+                .str("mode", p.scenario.as_deref().unwrap_or("random"))
+                .num("prop", p.prop)
+                .num("seed", p.seed)
+                .bool("small", p.small)
+                .num("histories", done)
+                .num("ops", ops)
+                .num("nontrivial", nontriv)
+                .num("distinct_nontrivial", hashes.len())
+                .bool("watchdog", watchdog)
+                .raw("violations", arr(viols))
+                .raw("violation_counts", {
+                    let mut o = Obj::new();
+                    for (k, v) in &viol_count {
+                        o = o.num(k, v);
+                    }
+                    o.done()
+                })
+                .raw("inconclusive", {
+                    let mut o = Obj::new();
+                    for (k, v) in &inconclusive {
+                        o = o.num(k, v);
+                    }
+                    o.done()
+                })
+                .raw("subjects", {
+                    let mut o = Obj::new();
+                    for (k, v) in &by_kind {
+                        o = o.num(k, v);
+                    }
+                    o.done()
+                })
+                .raw("capacities", arr(caps.iter().map(|c| c.to_string())))
+                .raw("observed", stats_json(&tot))
+                .raw("samples", arr(samples))
+                .num("wall_ms", t0.elapsed().as_millis())
+                .done();
+            println!("{out}");
+            let _ = esc;
+        }
+        "rule" => println!("{}", sim::rule_text(arg(&args, "--prop", 0u8))),
+        "noop" => {}
+        _ => eprintln!("usage: fbv sim|run|rule ..."),
     }
 }
